@@ -470,6 +470,8 @@ Section Model.
   Definition sanitize_val (v : pyval) : result pyval :=
     match v with
     | VArr l => do l' <- sequence (map (fun y => match to_float y with Some x => Ok (VFloat (sanitize x)) | None => Err EInternal end) l); Ok (VArr l')
+    | VInt z => Ok (VInt z)                    (* integers have no NaN / infinity: returned as they are *)
+    | VBool b => Ok (VBool b)
     | _ => match to_float v with Some x => Ok (VFloat (sanitize x)) | None => Err EInternal end
     end.
   (* Discrete.__init__: a Sequence [x0, y0, x1, y1, …] becomes the rows [[x0, y0], …]; None an empty (1, 0) array *)
